@@ -426,7 +426,7 @@ func (c *Ctx) ctxEdges(root *ssa.Function, m unitMember, v ssa.Value, at *ssa.Ba
 	if ph, isPhi := v.(*ssa.Phi); isPhi && !isLoopHeader(ph.Block()) {
 		for i, e := range ph.Edges {
 			pred := ph.Block().Preds[i]
-			if edgeInfeasible(c, m.fn, pred, ph.Block()) {
+			if edgeInfeasible(c, m.fn, pred, ph.Block()) || !c.edgeFeasible(m.fn, pred, ph.Block()) {
 				continue
 			}
 			local = append(local, ctxEdge{c.term(m.fn, e), c.edgeMust(m.fn, pred, ph.Block())})
